@@ -59,6 +59,12 @@ CHECKS["C05"] = dict(level="model_checking", engine="E1-sequences",
    note="Trusted: SQLite's own transaction handling of the native mirror; injected commit failure = version PUT fails before taking effect. Failing multi-row statements inside explicit transactions are out of scope (needs xSavepoint; property is silent).",
    ref="§5 C05")
 
+CHECKS["C15"] = dict(level="model_checking", engine="E1-histories",
+   technique="exhaustive enumeration: (a) every history of the C01 space x every byte-identical retry placement, differential oracle (with vs without the retry); (b) out-of-time-order histories vs the reference conflict rule; (c) every sequence over the s3db_conn surface vs a model of effective write time / deadline, with stored timestamps read by the tree walker",
+   text="(a) For every history of up to 3 (quick) / 4 (thorough) statements by up to 3 writers (all kinds, all write-time orders, two base states) and every (statement i, later position, writer, with or without a refresh of that writer first) a re-execution of statement i with the same text, values and write_time is inserted; the rows a fresh reader sees must equal those of the history without it. (b) Histories whose execution order contradicts the write-time order must end in the state the documented rule gives. (c) Every sequence of length 1..4 (quick) / 1..5 (thorough) over {set write_time t1/t2, clear it with NULL or '', set deadline past/future, clear it, BEGIN, COMMIT, ROLLBACK, INSERT, read s3db_conn} is checked against a model: read-back equals what was set, the stored row time equals the write_time in effect (exactly) or the clock / transaction time when unset, a past deadline fails exactly the autocommit INSERTs and changing COMMITs issued while it is set, clearing restores the defaults.",
+   note="Trusted: logical clock hooks (H2/H5/H6) stand in for time.Now(); deadlines only in the far past/future so no real timer fires. After the connection itself manipulated write_time inside a transaction the model accepts either the transaction time or the statement time (the property leaves it open).",
+   ref="§5 C15")
+
 NOT_YET = {}
 
 props = [json.loads(l) for l in open("properties.jsonl")]
